@@ -10,9 +10,11 @@ from . import C01 as _base
 
 OBLIGATION_FLOOR = 1500
 Z3_TIMEOUT_MS = _base.Z3_TIMEOUT_MS
+SUPPORT_UNITS = ['UnitCube', 'NautilusBound', 'NautilusBound.compute']
 UNITS = ['sample_shell', 'add_samples', 'run[verbose=False,file=False]',
          'run[verbose=False,file=True]', 'run[verbose=True,file=False]',
-         'run[verbose=True,file=True]']
+         'run[verbose=True,file=True]'] + ['support:' + u
+                                           for u in SUPPORT_UNITS]
 BRANCH_COVERED_FUNCTIONS = tuple(_base.SQ + f for f in (
     'sample_shell', 'add_samples', 'run'))
 DEAD_BRANCHES = _base.DEAD_BRANCHES
@@ -21,6 +23,14 @@ _branch_all = _base._branch_all
 
 
 def build(cx, fe, tier, info, only=None):
+    if only is not None and only.startswith('support:'):
+        # "never evaluates a point outside the unit cube": the two bound
+        # classes the Sampler instantiates return proposals inside the cube,
+        # and NautilusBound.compute builds the outer union restricted to it
+        # (units shared with C07)
+        from . import C07
+        C07.build(cx, fe, tier, info, only=only.split(':', 1)[1])
+        return
     _base.build(cx, fe, tier, info, only=only)
     info['assumptions'] = [a.replace('C01:', 'C10:')
                            for a in info.get('assumptions', [])]
